@@ -80,6 +80,15 @@ def path_exchange_filters_vehicles(ctx, rid="R2"):
                     cap_locals = fdp.slice(seed_locals=set().union(*[fdp.operand_uses(a) for a in i2.args[1:]]), control=False)["locals"]
                     if call(S("is_vehicle")) in at and sched_root in cap_locals:
                         ok = True
+                        # the predicate itself must be is_vehicle: a wider one (is_vehicle_or_dummy) lets dummy ids through
+                        for a in i2.args[1:]:
+                            for dd in fdp.slice_operand_pure(i2, a)["defs"]:
+                                ck = dd.info.get("closure") if dd.info else None
+                                if ck and ck in ctx.prog.bodies:
+                                    direct = {c3.callee for c3 in ctx.prog.bodies[ck].calls()}
+                                    if (S("is_vehicle") not in direct and any((x or "").startswith(SCHEDULE + "::") for x in direct)) \
+                                            or direct & {S("is_vehicle_or_dummy"), S("is_dummy")}:
+                                        ok = False
         ctx.decide(o, ok, "the list is retained by is_vehicle of the schedule that is handed over",
                    "the vehicle list is not filtered by is_vehicle of the resulting schedule: a provider that became a dummy tour is handed to "
                    "improve_depots, which panics on non-vehicles")
